@@ -45,6 +45,9 @@ def fit_faults(spec):
         out.append(("R1", {"call": "add_matrix_error", "axis": ax, "mat": np.eye(n).tolist(), "mtype": "cor", "err": [0.1] * (n + 1)}))
         if t == "xy":
             out.append(("R1", {"call": "add_error", "axis": "x", "err": [0.1] * (n + 1), "via": "fit"}))
+        if n >= 2:
+            out.append(("R1", {"call": "add_error", "axis": ax, "err": [0.1], "via": "fit", "rel": True}))  # length-1 vector is not a scalar
+            out.append(("R1", {"call": "add_error", "axis": ax, "err": [0.1], "via": "container"}))
         out.append(("R2", {"call": "add_error", "axis": ax, "err": [0.1] * (n - 1) + [-0.1], "via": "fit"}))
         out.append(("R2", {"call": "add_error", "axis": ax, "err": -0.2, "via": "container"}))
         out.append(("R3", {"call": "add_error", "axis": ax, "err": 0.1, "corr": 1.5, "via": "fit"}))
@@ -60,6 +63,9 @@ def fit_faults(spec):
         out.append(("R5", {"call": "mconstraint", "pars": names[:2], "values": [1.0], "mat": [[1.0, 0.2], [0.2, 1.0]], "mtype": "cov"}))
         out.append(("R4", {"call": "mconstraint", "pars": names[:2], "values": [1.0, 1.0], "mat": [[0.9, 0.2], [0.2, 1.0]], "mtype": "cor", "unc": [0.1, 0.1]}))
     out.append(("R6", {"call": "set", "name": "zzz"}))
+    out.append(("R6", {"call": "set_multi", "name": "zzz", "valid": names[0]}))  # valid keyword first: partial application before the rejection
+    if len(names) >= 2:
+        out.append(("R6", {"call": "set_multi", "name": "zzz", "valid": names[-1]}))
     out.append(("R6", {"call": "fix", "name": "zzz"}))
     out.append(("R6", {"call": "fix_value", "name": "zzz"}))
     out.append(("R6", {"call": "limit", "name": "zzz"}))
@@ -79,7 +85,7 @@ def do_fit_fault(sim, kind, f):
     t = spec["type"]
     c = f["call"]
     if c == "add_error":
-        kw = dict(err_val=f["err"], correlation=f.get("corr", 0.0))
+        kw = dict(err_val=f["err"], correlation=f.get("corr", 0.0), relative=f.get("rel", False))
         tgt = fit.data_container if f.get("via") == "container" else fit
         return tgt.add_error(f["axis"], **kw) if t == "xy" else tgt.add_error(**kw)
     if c == "add_matrix_error":
@@ -95,6 +101,11 @@ def do_fit_fault(sim, kind, f):
         return fit.add_matrix_parameter_constraint([f["other"], f["name"]], [1.0, 1.0], np.eye(2))
     if c == "set":
         return fit.set_parameter_values(**{f["name"]: 1.0})
+    if c == "set_multi":
+        cur = float(fit.parameter_values[sim.ref.par_names.index(f["valid"])])
+        d = {f["valid"]: cur + 0.75}
+        d[f["name"]] = 1.0
+        return fit.set_parameter_values(**d)
     if c == "set_all":
         return fit.set_all_parameter_values([1.0] * f["n"])
     if c == "fix":
@@ -278,6 +289,8 @@ class RejectMachine(Machine):
                     out.append(("R1", {"call": "add_error", "axis": ax, "err": [0.1] * (n + dn)}))
             out.append(("R1", {"call": "add_matrix_error", "axis": ax, "mat": (np.eye(n + 1) * 0.1).tolist(), "mtype": "cov"}))
             out.append(("R1", {"call": "add_matrix_error", "axis": ax, "mat": np.eye(n).tolist(), "mtype": "cor", "err": [0.1] * (n + 1)}))
+            if n >= 2:
+                out.append(("R1", {"call": "add_error", "axis": ax, "err": [0.1], "rel": True}))
             out.append(("R2", {"call": "add_error", "axis": ax, "err": [0.1] * (n - 1) + [-0.5]}))
             out.append(("R3", {"call": "add_error", "axis": ax, "err": 0.1, "corr": 1.01}))
             out.append(("R3", {"call": "add_error", "axis": ax, "err": 0.1, "corr": -0.5}))
@@ -481,7 +494,7 @@ class RejectMachine(Machine):
 
                 def call():
                     if c == "add_error":
-                        kw = dict(err_val=f["err"], correlation=f.get("corr", 0.0))
+                        kw = dict(err_val=f["err"], correlation=f.get("corr", 0.0), relative=f.get("rel", False))
                         return main.add_error(f["axis"], **kw) if xy else main.add_error(**kw)
                     if c == "add_matrix_error":
                         kw = dict(err_matrix=np.array(f["mat"]), matrix_type=f["mtype"], err_val=(None if f.get("err") is None else np.array(f["err"])))
